@@ -55,9 +55,11 @@ class World:
         self.token = R.jws_compact(R.jdump({"alg": self.alg}), b"signed payload", self.alg, self.jwk)
         self.token2 = R.jws_compact(R.jdump({"alg": self.alg, "cty": "two"}), b"the second signed payload", self.alg, self.jwk)
         self.jalg = "ECDH-ES" if kind.startswith("EC") else ("A256KW" if kind == "oct256" else "RSA-OAEP")
+        self.jalg2 = {"ECDH-ES": "ECDH-ES+A128KW", "A256KW": "PBES2-HS256+A128KW", "RSA-OAEP": "RSA-OAEP-256"}[self.jalg]
+        self.hdr2 = {"alg": self.jalg2, "enc": "A128CBC-HS256", **({"p2c": 8} if self.jalg2.startswith("PBES2") else {})}
         self.jwe_token = R.jwe_compact(R.jwe_encrypt({"alg": self.jalg, "enc": "A128GCM"}, b"secret plaintext", [{"jwk": self.jwk}])) \
             if kind != "OKP:Ed25519" else None
-        self.jwe_token2 = R.jwe_compact(R.jwe_encrypt({"alg": self.jalg, "enc": "A128CBC-HS256"}, b"another secret plaintext!", [{"jwk": self.jwk}])) \
+        self.jwe_token2 = R.jwe_compact(R.jwe_encrypt(dict(self.hdr2), b"another secret plaintext!", [{"jwk": self.jwk}])) \
             if kind != "OKP:Ed25519" else None
 
     def op(self, name):
@@ -83,9 +85,9 @@ class World:
         elif name == "verify2":
             def f(): return ("payload2", jws.deserialize_compact(w.token2, w.pub, algorithms=[w.alg]).payload)
         elif name == "encrypt2":
-            def f(): return ("jwe", jwe.encrypt_compact({"alg": w.jalg, "enc": "A128CBC-HS256"}, b"plaintext", w.pub, algorithms=["A128CBC-HS256", w.jalg]))
+            def f(): return ("jwe", jwe.encrypt_compact(dict(w.hdr2), b"plaintext", w.pub, algorithms=["A128CBC-HS256", w.jalg2]))
         elif name == "decrypt2":
-            def f(): return ("plaintext2", jwe.decrypt_compact(w.jwe_token2, w.key, algorithms=[w.jalg, "A128CBC-HS256"]).plaintext)
+            def f(): return ("plaintext2", jwe.decrypt_compact(w.jwe_token2, w.key, algorithms=[w.jalg2, "A128CBC-HS256"]).plaintext)
         elif name == "sign_ks":
             def f(): return ("jws2", jws.serialize_compact({"alg": w.alg}, b"message", w.ks, algorithms=[w.alg]))
         elif name == "verify":
